@@ -110,18 +110,25 @@ def gen_script(ctx, W, t, n, plan_hint, plan_det=True):
             if c is None:
                 continue
             flags = FLAGS[t.draw(4)]
-            ops.append({"kind": "apply", "state": sref, "call": c, "flags": flags, "det": determined(W, S, c)})
+            # an operator built without the problem's objects (the constructor's default): the library then skips
+            # forall effects and quantifies forall conditions over the constants only - whatever it returns, the same
+            # operator object must return it again later (the reference value of such results is unknown)
+            noobj = t.draw(8) == 0
+            quantified = noobj and has_forall(W.action(c[0]))
+            ops.append({"kind": "apply", "state": sref, "call": c, "flags": flags, "det": determined(W, S, c, noobj),
+                        "noobj": noobj, "quantified": quantified})
             operators.append((len(ops) - 1, c))
             states.append(len(ops) - 1)
-            abs_of[len(ops) - 1] = predict(W, S, c, flags)
+            abs_of[len(ops) - 1] = None if quantified else predict(W, S, c, flags)
         elif k <= 6 and operators:  # re-apply an old operator object to an earlier / later state
             oref, c = t.pick(operators)
             sref = t.pick(states)
             flags = FLAGS[t.draw(4)]
             ops.append({"kind": "reapply", "op": oref, "state": sref, "call": c, "flags": flags,
-                        "det": determined(W, abs_of[sref], c)})
+                        "det": determined(W, abs_of[sref], c, ops[oref].get("noobj", False)),
+                        "noobj": ops[oref].get("noobj", False)})
             states.append(len(ops) - 1)
-            abs_of[len(ops) - 1] = predict(W, abs_of[sref], c, flags)
+            abs_of[len(ops) - 1] = None if ops[oref].get("quantified") else predict(W, abs_of[sref], c, flags)
         elif k == 7 and operators and t.chance(1, 2):
             # an old operator answers a query about a short-lived copy of one state, the copy is released, and the
             # operator is then applied to a fresh copy of another state
@@ -139,9 +146,10 @@ def gen_script(ctx, W, t, n, plan_hint, plan_det=True):
                 a_ref, b_ref = t.pick(yes), t.pick(no)
             flags = FLAGS[0] if t.chance(1, 2) else FLAGS[t.draw(4)]
             ops.append({"kind": "reapply_tmp", "op": oref, "state": b_ref, "state2": a_ref, "call": c, "flags": flags,
-                        "det": determined(W, abs_of[b_ref], c)})
+                        "det": determined(W, abs_of[b_ref], c, ops[oref].get("noobj", False)),
+                        "noobj": ops[oref].get("noobj", False)})
             states.append(len(ops) - 1)
-            abs_of[len(ops) - 1] = predict(W, abs_of[b_ref], c, flags)
+            abs_of[len(ops) - 1] = None if ops[oref].get("quantified") else predict(W, abs_of[b_ref], c, flags)
         elif k == 7:
             sref = t.pick(states)
             c = G.gen_call(t, W.D, W.P)
@@ -198,13 +206,25 @@ def predict(W, S, c, flags):
         return None
 
 
-def determined(W, S, c):
-    """is the outcome of applying c in S (state or refusal) a function of (S, c) alone?"""
+def has_forall(act):
+    def f(x):
+        return x[0] == "forall" or (x[0] in ("and", "or") and any(f(y) for y in x[1]))
+    return f(act["pre"]) or any(e[0] == "forall" or (e[0] == "when" and f(e[1])) for e in act["eff"])
+
+
+def determined(W, S, c, noobj=False):
+    """is the outcome of applying c in S (state or refusal) a function of (S, c) alone?  noobj: the operator was built
+    without the problem's objects - the library then skips forall effects and quantifies conditions over the domain's
+    constants only, so it is THAT evaluation which has to be free of conflicting effects"""
     if S is None:
         return False
+    act, objs = W.action(c[0]), W.objs
+    if noobj:
+        act = dict(act, eff=[e for e in act["eff"] if e[0] != "forall"])
+        objs = {o: ty for o, ty in W.objs.items() if o in W.D["constants"]}
     try:
-        interp.successor(S, W.action(c[0]), c[1], W.D, W.objs)
-        interp.applicable(S, W.action(c[0]), c[1], W.D, W.objs)
+        interp.successor(S, act, c[1], W.D, objs)
+        interp.applicable(S, act, c[1], W.D, objs)
         return True
     except (interp.Inconsistent, interp.Undefined):
         return False
@@ -265,7 +285,8 @@ def exec_op(env, ops, i, store):
         if env.baseline:
             # what the call must return: a fresh operator applied to the state, no history
             try:
-                r = lib.Operator(d.actions[o["call"][0]], d, list(o["call"][1]), p.objects).apply(
+                r = lib.Operator(d.actions[o["call"][0]], d, list(o["call"][1]),
+                                 None if o.get("noobj") else p.objects).apply(
                     st.copy(), allow_inapplicable_actions=o["flags"][0], skip_validation=o["flags"][1])
             except Exception as e:
                 return ("exc", type(e).__name__)
@@ -293,15 +314,16 @@ def exec_op(env, ops, i, store):
         st = state_of(o["state"])
         if st is None:
             return ("skipped",)
+        objs = None if o.get("noobj") else p.objects
         if k == "apply":
-            op = lib.Operator(d.actions[o["call"][0]], d, list(o["call"][1]), p.objects)
+            op = lib.Operator(d.actions[o["call"][0]], d, list(o["call"][1]), objs)
         else:
             ent = store.get(o["op"])
             op = ent.get("op") if ent else None
             if op is None:
                 return ("skipped",)
             if env.baseline:
-                op = lib.Operator(d.actions[o["call"][0]], d, list(o["call"][1]), p.objects)
+                op = lib.Operator(d.actions[o["call"][0]], d, list(o["call"][1]), objs)
         store[i] = {"op": op}
         try:
             r = op.apply(st, allow_inapplicable_actions=o["flags"][0], skip_validation=o["flags"][1])
@@ -607,17 +629,29 @@ def run(ctx):
     violations = []
     cancel_mode = cfg.chance(1, 4)
     single_checks = nthreads == 1
+    targeted = {}
+    sched_box = [None]
 
     def make_client(ti):
         ops = scripts[ti]
 
         def client():
             for i in range(len(ops)):
+                if targeted.get((ti, i)):
+                    sched_box[0].cancel_after(targeted[(ti, i)])
                 try:
                     r = exec_op(env, ops, i, stores[ti])
                 except schedmod.SimCancel:
                     r = ("cancelled",)
-                    stores[ti].pop(i, None)
+                    # the call produced no state, but an operator object whose first use was interrupted stays in the
+                    # caller's hands: later 're-apply' operations use it and must get what a fresh operator returns
+                    ent = stores[ti].get(i)
+                    if ent is not None:
+                        ent.pop("state", None)
+                        if ent.get("op") is None:
+                            stores[ti].pop(i, None)
+                        else:
+                            ctx.probes["cancelled_operator_kept"] += 1
                 except Violation as v:
                     violations.append(v)
                     r = ("violation",)
@@ -642,8 +676,16 @@ def run(ctx):
         forced = sorted({1 + sc.draw(est) for _ in range(sc.draw(5))})
     if cancel_mode:
         cancel_at = sorted({1 + sc.draw(est) for _ in range(1 + sc.draw(2))})
+        if sc.chance(1, 2):
+            # aim one cancellation into the first use of an operator that the script re-uses later
+            cands = [(ti, o["op"]) for ti, ops in enumerate(scripts) for o in ops
+                     if o["kind"] in ("reapply", "reapply_tmp") and ops[o["op"]]["kind"] == "apply"]
+            if cands:
+                targeted[cands[sc.draw(len(cands))]] = 1 + sc.draw(1 << sc.draw(11))
+                ctx.probes["targeted_cancellation"] += 1
     S = schedmod.Sched(sc, pkg, p_num=(1 if nthreads > 1 else 0), p_den=12 if dense else [50, 200, 1000][cfg.draw(3)],
                        forced=forced, cancel_at=cancel_at)
+    sched_box[0] = S
     for ti in range(nthreads):
         S.spawn(f"client{ti}", make_client(ti))
     S.run()
